@@ -15,9 +15,14 @@ def main():
     mod = importlib.import_module(f"vf.props.{pid.lower()}")
     common.import_auditok()
     rec = common.Rec()
-    reg, exp = common.explicit_and_regression_cases(mod)
-    extra = list(mod.optimized_cases()) if hasattr(mod, "optimized_cases") else []
-    common.run_cases(mod, reg + exp + extra, rec, stop_at_first=False)
+    if len(sys.argv) > 3 and sys.argv[2] == "--case":
+        with open(sys.argv[3]) as fp:
+            cases = [json.load(fp)]
+    else:
+        reg, exp = common.explicit_and_regression_cases(mod)
+        extra = list(mod.optimized_cases()) if hasattr(mod, "optimized_cases") else []
+        cases = reg + exp + extra
+    common.run_cases(mod, cases, rec, stop_at_first=False)
     print("OPTRUN " + json.dumps({"evaluations": rec.evaluations,
                                   "failures": [[c, m] for c, m in rec.failures[:5]]}, default=repr))
 
